@@ -8,7 +8,7 @@ fn c16_opreturn_printed_lines() {
     let suite = "c16_opreturn_printed_lines";
     let mut rng = Rng::new(16);
     let payloads: Vec<Vec<u8>> = vec![b"hello world".to_vec(), "gr\u{fc}\u{df}e \u{4e16}\u{754c}".as_bytes().to_vec(), vec![0x41; 75], vec![0x42; 76], vec![0x43; 80],
-        vec![0x44; 255], vec![0x45; 256], vec![0x46; 3000], vec![0x47; 249], vec![0x48; 250], vec![0x49; 251], vec![0x4a; 252], vec![0x4b; 253], vec![0xff, 0xfe, 0x41], vec![0xc3], vec![], b"hi\xe2\x82".to_vec(), b"ok\xf0\x9f\x98".to_vec(), b"hi\xe2\x82A".to_vec(), b"a".to_vec(), b"  spaced  ".to_vec()];
+        vec![0x44; 255], vec![0x45; 256], vec![0x46; 3000], vec![0x47; 249], vec![0x48; 250], vec![0x49; 251], vec![0x4a; 252], vec![0x4b; 253], vec![0xff, 0xfe, 0x41], vec![0xc3], vec![], "caf\u{fffd} au lait".as_bytes().to_vec(), vec![0xef, 0xbf, 0xbd], b"hi\xe2\x82".to_vec(), b"ok\xf0\x9f\x98".to_vec(), b"hi\xe2\x82A".to_vec(), b"a".to_vec(), b"  spaced  ".to_vec()];
     let push = |d: &[u8], form: u8| -> Vec<u8> { let mut v = match form {
         0 => vec![d.len() as u8], 1 => vec![0x4c, d.len() as u8],
         2 => { let mut x = vec![0x4d]; x.extend_from_slice(&(d.len() as u16).to_le_bytes()); x }
@@ -29,10 +29,19 @@ fn c16_opreturn_printed_lines() {
       txs.push((tx, b"\x00multi".to_vec())); }
     // also scripts that are NOT op_return: must print nothing
     txs.push((TxSpec::new(vec![TxIn::new([0xEE; 32], 0, vec![])], vec![TxOut::new(5, vec![0x51, 0x6a, 0x02, 0x68, 0x69]), TxOut::new(5, vec![0x02, 0x6a, 0x6a])]), vec![]));
+    // three single-transaction blocks at the end: the only printing transaction sits at the same position in consecutive blocks
+    for (i, txt) in ["solo one", "solo two", "solo three"].iter().enumerate() {
+        let sc = [vec![0x6a], push(txt.as_bytes(), 0)].concat();
+        txs.push((TxSpec::new(vec![TxIn::new([0xD0 + i as u8; 32], 0, vec![0x51])], vec![TxOut::new(0, sc.clone()), TxOut::new(0, sc)]), txt.as_bytes().to_vec())); }
     let per_block = 9;
-    let nblocks = (txs.len() + per_block - 1) / per_block;
+    let nfull = (txs.len() - 3 + per_block - 1) / per_block;
+    let nblocks = nfull + 3;
     let mut it = txs.iter().map(|x| x.0.clone()).collect::<Vec<_>>().into_iter();
-    let mut chain = make_chain(nblocks as u64 + 1, &mut |h| if h == 0 { vec![] } else { (0..per_block).filter_map(|_| it.next()).collect() });
+    let mut left = txs.len();
+    let mut chain = make_chain(nblocks as u64 + 1, &mut |h| if h == 0 { vec![] } else {
+        let take = if left > 3 { per_block.min(left - 3) } else { 1 };
+        left -= take.min(left);
+        (0..take).filter_map(|_| it.next()).collect() });
     relink(&mut chain);
     let d = simple_dir(&chain); d.write();
     let _ = rng.next();
